@@ -57,6 +57,10 @@ def _apply(t, act):
             t[act[1]] = float(act[2])
         elif k == "setiteml":
             t[act[1]] = [float(v) for v in act[2]]
+        elif k == "setitemf":
+            t[act[1]] = lambda track, i: 3.0 * i + 2.0
+        elif k == "addaf":
+            t.addAnalyticalFeature(lambda track, i: 3.0 * i + 2.0, act[1])
         elif k == "update":
             t.updateAnalyticalFeature(act[1], float(act[2]))
         elif k == "remove":
